@@ -727,3 +727,37 @@ twin('C03', 'c03-twin-finally-as-except', NOTIF,
      "    loop.schedule(task, signal=wake_up)\n    try:\n        await __HIBERNATE__\n    except Interrupt as err:\n        if err is not wake_up:\n            assert (\n                task is loop.activity\n            ), 'Break points cannot be passed to other coroutines'\n            raise\n    finally:\n        wake_up.revoke()",
      "    loop.schedule(task, signal=wake_up)\n    try:\n        await __HIBERNATE__\n    except Interrupt as err:\n        if err is not wake_up:\n            wake_up.revoke()\n            raise\n    except BaseException:\n        wake_up.revoke()\n        raise\n    wake_up.revoke()",
      'finally written out as handlers')
+
+# ------------------------------------------------------------------------- C14
+mutant('C14', 'c14-interval-drift', TIMING,
+       "        remaining_delay = last_time + period - time.now",
+       "        remaining_delay = period",
+       'A interval:remaining', 'interval behaves like delay: ticks drift with the body')
+mutant('C14', 'c14-interval-stale-last', TIMING,
+       "            await postpone()\n        last_time = time.now\n        yield last_time",
+       "            await postpone()\n        last_time = last_time + period\n        yield last_time",
+       'A interval:yields-fresh-clock', 'yields a computed instead of the current time')
+mutant('C14', 'c14-interval-no-exceeded', TIMING,
+       "        if remaining_delay < 0:\n            raise IntervalExceeded()\n        elif remaining_delay > 0:",
+       "        if remaining_delay > 0:",
+       'G', 'a slow body is not reported; zero/negative remaining postpones')
+mutant('C14', 'c14-interval-exceeded-on-equal', TIMING,
+       "        if remaining_delay < 0:\n            raise IntervalExceeded()",
+       "        if remaining_delay <= 0:\n            raise IntervalExceeded()",
+       'G', 'a body taking exactly the period raises IntervalExceeded')
+mutant('C14', 'c14-delay-negative-accepted', TIMING,
+       "    if period < 0:\n        raise ValueError('period must not be negative')\n    if period > 0:",
+       "    if period > 0:",
+       'G delay', 'negative period spins')
+mutant('C14', 'c14-delay-double', TIMING,
+       "            await suspend(delay=period, until=None)\n            yield time.now",
+       "            await suspend(delay=period + period, until=None)\n            yield time.now",
+       'A delay:waits-period', 'pauses twice the period')
+mutant('C14', 'c14-delay-zero-no-yield-to-others', TIMING,
+       "        while True:\n            await postpone()\n            yield time.now",
+       "        while True:\n            yield time.now",
+       'Y delay', 'delay(0) starves other activities')
+twin('C14', 'c14-twin-rearranged', TIMING,
+     "        remaining_delay = last_time + period - time.now",
+     "        remaining_delay = period - (time.now - last_time)",
+     'same formula')
